@@ -32,5 +32,7 @@ while read -r st w rest; do
     if [ "$n" = "0" ]; then echo "WITNESS $w misbehaves on the unchanged tree and is not bound to a known finding (known_for): $rest"; bad=1; fi
   fi
 done < <(bin/gvc witnesses 2>&1)
+# the committed sweep baseline is the sweep of the unchanged tree
+if ! diff -q <(bin/gvc sweep-baseline 2>/dev/null) sweep_baseline.json >/dev/null; then echo "sweep_baseline.json differs from \`bin/gvc sweep-baseline\` on this tree: regenerate and review"; bad=1; fi
 [ $bad = 0 ] && echo "all replay harnesses are quiet on the unchanged tree; every misbehaving witness is bound to its known finding"
 exit $bad
